@@ -268,6 +268,20 @@ class SlowStop(edzed.AddonAsync, edzed.SBlock):
 _ARMED = [True]
 
 
+class LateSender(edzed.SBlock):
+    """a block WITHOUT asynchronous clean-up whose stop() sends an event to the persistent timed blocks: what an
+    OutputFunc with stop_data and on_success does.  The blocks without asynchronous clean-up are stopped in the
+    iteration order of a set, so the event reaches its destination before or after the destination's own stop()"""
+    life = None
+
+    def init_regular(self):
+        self.set_output(None)
+
+    def stop(self):
+        super().stop()
+        self.life.send_late()
+
+
 def _check(value):
     if value == 'BOOM' and _ARMED[0]:
         raise RuntimeError('validator exploded')
@@ -440,6 +454,9 @@ class Life:
         self.restored_from = {}  # block name -> the saved state `_restore_state` accepted
         self.init_events = []    # (block name, event type, value) of events sent by other blocks during the start-up
         self.t_begin = None      # instant the stop began (when it can be observed)
+        self.late_n = 0          # number of extra blocks whose stop() sends events to the persistent FSM blocks
+        self.stopped_names = set()   # blocks whose stop() has returned
+        self.late = []           # records of the events sent from another block's stop()
 
     # ---- observation
 
@@ -541,6 +558,8 @@ class Life:
         if self.slow is not None:
             sl = SlowStop('zz_slow')
             sl.life, sl.delay = self, self.slow / 1e6
+        for k in range(self.late_n):
+            LateSender(f'zz_late{k}').life = self
         for idx, blk in enumerate(self.blocks):
             self.wrap(idx, blk)
         self.lines.append('persist reset')
@@ -558,6 +577,14 @@ class Life:
     def wrap(self, idx, blk):
         orig = blk.event
         name = self.specs[idx]['name']
+        orig_stop = blk.stop
+
+        def stop_rec():
+            try:
+                return orig_stop()
+            finally:
+                self.stopped_names.add(name)
+        blk.stop = stop_rec
         if hasattr(blk, '_restore_state'):
             orig_restore = blk._restore_state
 
@@ -644,9 +671,10 @@ class Life:
         self.in_call = False         # timers go on firing during the clean-up
 
     def run(self, t0, mode, failer_first, ops, t_stop, configs, slow=None, stop=None, start_fault=None,
-            stop_fault=None):
+            stop_fault=None, late=0):
         """whole life; returns nothing, fills lines/trace/snaps"""
         self.slow = slow
+        self.late_n = late
         stop = stop or {'kind': 'full'}
         self.configs = configs
         self.world.wall_us = t0
@@ -675,7 +703,8 @@ class Life:
                 await c.wait_init()
             except BaseException as err:
                 init_err = err
-            mname = {'ok': 'ok', 'aborted': 'aborted', 'raises': 'raises'}[mode]
+            # ('raises0': the failing start() is the first one - no block of the scenario was started or is stopped)
+            mname = {'ok': 'ok', 'aborted': 'aborted', 'raises': 'raises0' if failer_first else 'raises'}[mode]
             if init_err is not None or not c.is_ready():
                 await asyncio.wait([simtask])
                 stamp = self.store.raw().get(STOPKEY)
@@ -772,7 +801,10 @@ class Life:
                 return
             if self.cleanup:
                 # the beginning of the stop was seen by the clean-up hook
-                self.lines.append(f'persist stopend {self.world.now_us()} {int(complete)}')
+                # the model's flag means "every block got its stop()": observed (an asynchronous clean-up that is cut
+                # short by its own stop_timeout does not keep the simulator from stopping the other blocks)
+                all_stopped = all(spec['name'] in self.stopped_names for spec in self.specs)
+                self.lines.append(f'persist stopend {self.world.now_us()} {int(all_stopped)}')
                 t_begin = self.t_begin
             else:
                 tstop = us_of(stamp) if isinstance(stamp, float) and (self.family == 'b' or not regular) else t_before
@@ -832,6 +864,27 @@ class Life:
         self.lines.append(f'persist ev {idx} {name} {wire_arg} {self.cal}')
         self.trace.append(res + ' ' + self.wfmt(writes) + self.render())
         self.snap('ev', blk=idx, res=res, op=op, writes=writes, nested_unknown=nested_unknown)
+
+    def send_late(self):
+        """one event for every persistent Timer / InputExp, sent from inside another block's stop()"""
+        self.cut_here()         # (events during the synchronous part of the clean-up are not in the model)
+        for idx, (spec, blk) in enumerate(zip(self.specs, self.blocks)):
+            if spec['kind'] not in ('timer', 'inputexp') or not blk.persistent:
+                continue
+            key = key_of(spec)
+            before = copy.deepcopy(self.store.raw().get(key, KeyError))
+            stopped = spec['name'] in self.stopped_names
+            in_call, self.in_call = self.in_call, True      # (not a timer: no 'fire' snapshot)
+            try:
+                rv = blk.event('start') if spec['kind'] == 'timer' else blk.event('put', value=9)
+                res = 'ret ' + repr(rv)
+            except Exception as err:    # pylint: disable=broad-except
+                res = 'err ' + type(err).__name__
+            finally:
+                self.in_call = in_call
+            self.late.append({'blk': idx, 'stopped': stopped, 'res': res, 'before': before,
+                              'after': copy.deepcopy(self.store.raw().get(key, KeyError)),
+                              'state': None if blk.state is edzed.UNDEF else blk.state})
 
     def cut_here(self):
         """a nested EdzedUnknownEvent (known finding C09-nested-unknown-*) is not modelled: the comparison with the
@@ -1228,9 +1281,14 @@ def _gen_scenario(rng, tier, family):
         scn['blocks'][j] = {'kind': 'input', 'name': f'b{j}', 'initdef': ['BOOM'], 'p': rng.random() < 0.9,
                             's': rng.random() < 0.75, 'exp': None}
         scn['init_boom'] = True
+    # blocks whose stop() sends an event to the persistent Timer / InputExp blocks (round ten): the event arrives
+    # before or after the destination's own stop(), as the set of blocks without asynchronous clean-up iterates
+    if family == 'a' and scn['mode'] == 'ok' and scn['slow'] is None and not scn.get('init_boom') \
+            and any(b['kind'] in ('timer', 'inputexp') and b['p'] for b in scn['blocks']) and rng.random() < 0.25:
+        scn['late'] = rng.choice([2, 4])
     # events between the blocks at start-up: on_output of an Input/Counter -> 'put' to another block, plain or
     # through an EventCond with None on either side; the destination is created before or after the source
-    linked = _gen_links(rng, scn) if family == 'a' and scn['mode'] == 'ok' and nb >= 2 and not scn.get('init_boom') and rng.random() < 0.5 else []
+    linked = _gen_links(rng, scn) if family == 'a' and scn['mode'] == 'ok' and nb >= 2 and not scn.get('init_boom') and not scn.get('late') and rng.random() < 0.5 else []
     ops = []
     aborted = False
     free = [i for i in range(nb) if scn['blocks'][i].get('link') is None]
@@ -1246,7 +1304,7 @@ def _gen_scenario(rng, tier, family):
             r['drop'] = []
     # the storage fails: at the start (reads of entries / of the stop time, keys(), the purge), at run time
     # (writes, and the pop that removes the stale entry), at the stop (saves, stop time)
-    if family == 'a' and scn['mode'] == 'ok' and not linked and not scn.get('init_boom') and rng.random() < 0.3:
+    if family == 'a' and scn['mode'] == 'ok' and not linked and not scn.get('init_boom') and not scn.get('late') and rng.random() < 0.3:
         scn['slow'], scn['stop'] = None, {'kind': 'full'}
         scn['fault_exc'] = rng.choice(['OSError', 'RuntimeError', 'StorageFault'])
 
@@ -1562,7 +1620,7 @@ def _run_impl(scn, world):
     store.exc = FAULT_EXC[scn.get('fault_exc', 'OSError')]
     first.run(scn['t0'], scn['mode'], scn['failer_first'], scn['ops'], scn['t_stop'], configs,
               slow=scn.get('slow'), stop=scn.get('stop'), start_fault=scn.get('start_fault'),
-              stop_fault=scn.get('stop_fault'))
+              stop_fault=scn.get('stop_fault'), late=scn.get('late', 0))
     # reference: a fresh start without storage content (what "normal initialisation" gives)
     restarts = []
     for r in scn['restarts']:
@@ -1653,12 +1711,14 @@ def _run_impl(scn, world):
         if b['kind'] == 'fsm' and any(e[1] in ('chain', 'goto') for e in b['tables']['enters']):
             tags.append('chained-transitions')
             break
+    if first.late:
+        tags.append('event-from-another-stop:' + ('after' if any(r['stopped'] for r in first.late) else 'before') + '-own-stop')
     tags = sorted(set(tags), key=tags.index)
     cut = getattr(world, 'c06_cut', None)
     if cut is not None:
         lines, trace = lines[:cut], trace[:cut]
     return {'lines': lines, 'trace': trace, 'tags': tags, 'nontrivial': changing > 0 and bool(restarts),
-            'first': first.snaps, 'bad': first.bad, 'store0': store0, 'restarts': restarts}
+            'first': first.snaps, 'bad': first.bad, 'store0': store0, 'restarts': restarts, 'late': first.late}
 
 
 # ----------------------------------------------------------------------------- oracle
@@ -1732,6 +1792,19 @@ def oracle(scn, res):
             for k in s['store']:
                 if not k.startswith('edzed-') and k not in pkeys:
                     viol('unused_removed_reserved_kept', f'snapshot {i}: unused entry {k!r} still present')
+    # ---- events sent from another block's stop() (the blocks without asynchronous clean-up are stopped in set order):
+    # one that arrives AFTER the destination's own stop() meets a block whose timer was cancelled by that stop; the
+    # states were saved before the blocks were stopped ("stop may invalidate the state information"), and that
+    # entry - state AND expiry of the timer - is what a restart must find
+    late = res.get('late') or []
+    late_unstopped = {r['blk'] for r in late if not r['stopped']}
+    for r in late:
+        if r['stopped'] and not _same(r['after'], r['before']):
+            viol('saved_state_survives_the_stop',
+                 f"{keys[r['blk']]}: an event sent by another block's stop() after this block's own stop() ({r['res']}) "
+                 f"replaced the entry saved at the stop {r['before']!r} by {r['after']!r}; a restart restores that",
+                 kind=specs[r['blk']]['kind'])
+            break
     # ---- storage follows the state
     saves = {}                # block index -> [(snapshot index, observation)] at its legitimate saves
     frozen = {}               # block index -> entry at the time of its handler error
@@ -1861,6 +1934,8 @@ def oracle(scn, res):
             else:
                 prev = first[n - 1]['obs']
                 for i, spec in enumerate(specs):
+                    if i in late_unstopped:
+                        continue        # (changed legitimately by an event that came before its own stop())
                     if spec['p'] and i not in frozen and prev[i]['persistent']:
                         saves.setdefault(i, []).append((n, prev[i]))
                         want = _expected_entry(spec, prev[i])
@@ -1918,6 +1993,8 @@ def oracle(scn, res):
             o2 = o2s[j]
             key = keys[i]
             if not spec2['p'] or key not in rs['store_in']:
+                continue
+            if snap['label'] == 'stop' and i in late_unstopped:
                 continue
             sf = rs['r'].get('start_fault') if not rs['r'].get('drop') else None
             if sf and i in sf.get('r', []):
